@@ -40,6 +40,20 @@ func tObj(kv ...any) *T {
 	return o
 }
 
+// clone copies a tree (the member order a writer chose is recorded per node, so a node must not
+// occur twice in one tree).
+func (t *T) clone() *T {
+	n := *t
+	n.E, n.Vals, n.Keys = nil, nil, append([]string(nil), t.Keys...)
+	for _, e := range t.E {
+		n.E = append(n.E, e.clone())
+	}
+	for _, v := range t.Vals {
+		n.Vals = append(n.Vals, v.clone())
+	}
+	return &n
+}
+
 func floatText(f float64) string { return strconv.FormatFloat(f, 'g', -1, 64) }
 
 // simple builds the tree from simple Go types.
